@@ -681,6 +681,9 @@ class Interp:
         if track is None:
             return v
         if isinstance(v, dict):
+            if track not in v and track in ("True", "False"):
+                # the keys of a count of booleans are the booleans; '@name.True' / '@name.False' read them
+                return v.get(track == "True")
             return v.get(track)
         return None
 
@@ -844,7 +847,11 @@ class Interp:
         if name == "count":
             if not args:
                 return self.count_value
-            raise Undefined("count(x) as a value")
+            # count.name(x) used for its value: the count of the value seen on this line, including this line
+            self.vote(n)
+            if id(n) not in self.cache:
+                raise Undefined("count(x) as a value")
+            return self.cache[id(n)]
         if name == "count_lines":
             return self.data_count
         if name == "count_scans":
